@@ -207,12 +207,11 @@ def unary_observations(Perm, p, cover, full=True):
     # ---- monotone blocks, contractions ---------------------------------------------------
     for suffix, steps in STEPS.items():
         name = "monotone_block_decomposition" + suffix
-        for ones in (False, True):
+        runs = X.monotone_runs(p, steps, False)
+        for ones, exp in ((False, runs), (True, X.with_singletons(n, runs))):
             add("mono", "%s(%s)" % (name, ones),
-                lambda name=name, ones=ones: [tuple(b) for b in getattr(P, name)(ones)],
-                X.monotone_runs(p, steps, ones))
-        add("mono", name + "()", lambda name=name: [tuple(b) for b in getattr(P, name)()],
-            X.monotone_runs(p, steps, False))
+                lambda name=name, ones=ones: [tuple(b) for b in getattr(P, name)(ones)], exp)
+        add("mono", name + "()", lambda name=name: [tuple(b) for b in getattr(P, name)()], runs)
     add("mono", "contract_inc_bonds", lambda: C.p(P.contract_inc_bonds()), X.contract(p, (1,)))
     add("mono", "contract_dec_bonds", lambda: C.p(P.contract_dec_bonds()), X.contract(p, (-1,)))
     add("mono", "contract_bonds", lambda: C.p(P.contract_bonds()), X.contract(p, (1, -1)))
@@ -285,8 +284,11 @@ def shard_unary(shard):
         cover = table[p] if table is not None else None
         check_unary(part, Perm, p, cover, after=prev, full=full)
         part.add(1, unary_nontrivial(p))
-        if not X.intervals(p) and n >= 4:
+        iv = X.intervals(p)
+        if not iv and n >= 4:
             part.bump("unary_simple_perms")
+        part.outcomes.add((n, len(X.sum_cuts(p)), len(X.skew_cuts(p)), max(iv) if iv else 0,
+                           len(X.monotone_runs(p, (1, -1), False))))
         if table is not None:
             part.bump("covers_checked")
         prev = p
@@ -621,7 +623,8 @@ def run(ctx, only=None):
     quick = ctx.quick
     Perm = _P()
     ctx.rule = ("unary: permutations of length >= 3 that are not monotone; duality: length >= 2; "
-                "insert: 0 < index < n and 0 < value < n; shift: law instances with n >= 3 and neither amount = 0 mod n; "
+                "insert: 0 < index < n and 0 < value < n; shift: law instances with n >= 3 and neither "
+                "amount = 0 mod n; "
                 "compose: neither factor nor the product is the identity (triples: p and q, r not "
                 "the identity); sums: at least two components of length >= 2; inflate: n >= 2, a "
                 "component of length >= 2 and a component that is None or empty.  Every case is "
@@ -635,6 +638,11 @@ def run(ctx, only=None):
         "the order inside block_decomposition()[k], children(), coveredby(), "
         "block_decomposition_as_pattern() and the choice among several maximum blocks are not "
         "part of the contract",
+        "strongly simple = simple and EVERY one-point deletion is simple (the docstring says 'any'; "
+        "the code and this check read it as 'every')",
+        "insert(index = n + 1) is accepted by the library's assert (it is the default) and means "
+        "the right end, like index = n",
+        "the empty permutation has the empty sum / skew decomposition",
         "lengths beyond the stated bounds are not explored"]
     for alias, target in ALIASES:
         if alias in CALLED_ALIASES:
@@ -645,21 +653,17 @@ def run(ctx, only=None):
 
     # ---- unary -----------------------------------------------------------------------------
     if want("unary"):
-        nfull = 7 if quick else 8          # all observers
-        ncore = 7 if quick else 9          # all observers except the removal family
+        nmax = 7 if quick else 8           # (length 9 would cost ~500 CPU-s more: outside the budget)
         cmax = 6 if quick else 7           # coveredby: table over S_{cmax+1}
         for n in range(0, cmax + 1):
             _COVER[n] = X.cover_table(n)
-        per = {0: 1, 1: 1, 2: 2, 3: 6, 4: 12, 5: 15, 6: 45, 7: 105, 8: 420, 9: 2268}
-        shards = [(n, lo, hi, n <= nfull) for n in range(0, ncore + 1)
-                  for lo, hi in chunks(n, per[n])]
+        per = {0: 1, 1: 1, 2: 2, 3: 6, 4: 12, 5: 15, 6: 45, 7: 105, 8: 420}
+        shards = [(n, lo, hi, True) for n in range(0, nmax + 1) for lo, hi in chunks(n, per[n])]
         e0 = ctx.evals
         ctx.pmap(shard_unary, shards)
         _COVER.clear()
         ctx.bounds["unary"] = {
-            "perm_length_all_observers": "0..%d (every permutation)" % nfull,
-            "perm_length_without_removal_family": ("%d..%d (every permutation)" % (nfull + 1, ncore)
-                                                   if ncore > nfull else None),
+            "perm_length": "0..%d (every permutation, all observers)" % nmax,
             "coveredby_perm_length": "0..%d (table over S_%d)" % (cmax, cmax + 1),
             "second_call_perm_length": "0..%d" % FRESH_MAX}
         ctx.section("unary", perms=ctx.evals - e0)
@@ -676,7 +680,7 @@ def run(ctx, only=None):
 
     # ---- insert ------------------------------------------------------------------------------
     if want("insert"):
-        nmax = 6 if quick else 8
+        nmax = 7 if quick else 8
         per = {0: 1, 1: 1, 2: 2, 3: 6, 4: 12, 5: 15, 6: 45, 7: 105, 8: 420}
         e0 = ctx.evals
         ctx.pmap(shard_insert, [(n, lo, hi) for n in range(0, nmax + 1)
@@ -742,7 +746,9 @@ def run(ctx, only=None):
             shards += [(n, lo, hi, alpha) for lo, hi in chunks(n, per)]
         e0 = ctx.evals
         ctx.pmap(shard_inflate, shards)
-        ctx.bounds["inflate"] = [{"perm_length": n, "components_over": a} for n, a in plan]
+        ctx.bounds["inflate"] = {
+            "alphabet": alphabet, "perm_length": "0..%d, every component list" % (4 if quick else 5),
+            "wider_alphabet": None if quick else {"alphabet": wide, "perm_length": "1..4"}}
         ctx.section("inflate", cases=ctx.evals - e0)
 
 
